@@ -454,6 +454,7 @@ func init() {
 
 	// ---- strings / bytes ----
 	models["strings.Contains"] = func(it *Interp, a []Val) Val { return it.strContains(a[0].(*StrV), a[1].(*StrV)) }
+	models["bytes.Contains"] = models["strings.Contains"]
 	models["strings.HasPrefix"] = func(it *Interp, a []Val) Val { return it.strHasPrefix(a[0].(*StrV), a[1].(*StrV)) }
 	models["bytes.HasPrefix"] = models["strings.HasPrefix"]
 	models["strings.HasSuffix"] = func(it *Interp, a []Val) Val { return it.strHasSuffix(a[0].(*StrV), a[1].(*StrV)) }
